@@ -4,7 +4,7 @@ import os
 from pyvc.api import *
 from pyvc import inventory as inv
 
-SPEC_IMPORTS = ['contracts.common']
+SPEC_IMPORTS = ['contracts.common', 'contracts.load']
 SPEC_FUNCTIONS = []
 
 _PN = Obj('PNode')
@@ -478,3 +478,9 @@ NOT_DECIDED = ['parso\'s in-place tree mutation vs. Names still held by an older
                'diff-parser correctness (excluded by the property)', 'signature_time_cache / memoize_method wrappers: contracts pending']
 TRUSTED = ['parso replaces the cache node of a path on every re-parse and a cache node is tied to one tree version',
            'get_parent_scope and is_definition are pure functions of the tree']
+
+
+def dynamic_contracts(repo):
+    """the text that is parsed is the text given or the file as it is now (contract shared: contracts/load.py)"""
+    from contracts import load
+    return [load.parse_and_get_code]
